@@ -23,12 +23,43 @@ def sample(cases, n, seed):
     return [cases[i] for i in idx]
 
 
+def stratum(c):
+    """coarse shape of a pooled case: rare shapes (4 dynamic default forms among 655 defaults cases, ...) must not be
+    lost to sampling"""
+    t = c.get("tscase")
+    if t == "defaults":
+        return ("defaults", c.get("form"), len(c.get("entries", [])) > 0)
+    if t == "call":
+        return ("call", c.get("shape"), c.get("prov"), c.get("opts", {}).get("resolveType"))
+    if t:
+        return (t, c.get("place"), c.get("opts", {}).get("resolveType"))
+    return (c.get("prop"), c.get("kind"), c.get("lang"))
+
+
+def sample_stratified(cases, n, seed, per=2):
+    """`per` cases of every stratum, the rest of the budget drawn uniformly"""
+    if len(cases) <= n:
+        return cases
+    rnd = random.Random(seed)
+    by = {}
+    for i, c in enumerate(cases):
+        by.setdefault(stratum(c), []).append(i)
+    keep = set()
+    for k in sorted(by, key=repr):
+        idx = by[k]
+        keep.update(idx if len(idx) <= per else rnd.sample(idx, per))
+    rest = [i for i in range(len(cases)) if i not in keep]
+    if len(keep) < n:
+        keep.update(rnd.sample(rest, min(len(rest), n - len(keep))))
+    return [cases[i] for i in sorted(keep)]
+
+
 def pool_post(prefix, cap_quick, cap_thorough):
     def post(cases, tier, seed):
         is_grid = lambda c: str(c.get("case", "")).startswith("G-") or "graph" in c
         grid = [c for c in cases if is_grid(c)]
         pool = [c for c in cases if not is_grid(c)]
-        pool = sample(pool, cap_quick if tier == "quick" else cap_thorough, seed)
+        pool = sample_stratified(pool, cap_quick if tier == "quick" else cap_thorough, seed)
         out = []
         for i, c in enumerate(grid + pool):
             d = dict(c)
@@ -82,8 +113,9 @@ def c06_slim(ob):
     keep = ("term", "reparse", "free_in", "free_out", "ids_raw", "ids_out", "loose", "gen", "ndiag")
     dd = {k: d[k] for k in keep if k in d}
     dd["hooks"] = [h for h in d.get("hooks", []) if h.get("ev") in SCOPE_EVENTS]
+    dd["imports"] = sorted({h["name"] for h in d.get("hooks", []) if h.get("ev") == "import"})
     return dict(case=ob["case"], ran=ob["ran"], why_not_run=ob["why_not_run"],
-                abs={k: a[k] for k in ("case", "module", "sites", "predicted", "opts") if k in a},
+                abs={k: a[k] for k in ("case", "module", "sites", "predicted", "opts", "imports", "helper") if k in a},
                 drv=dd, rt=dict(exports=rt["exports"], errors=rt["errors"], events=[]))
 
 
@@ -200,21 +232,21 @@ PROPS = {
         mc=[dict(module="MC_C06", heap="10g", actions=["EnterStmts", "ExitStmts", "EnterArrow", "ExitArrow", "AssignEnter", "AssignExit",
                                                            "SiteStep", "DrainModule"])], post=c06_post, obs_slim=c06_slim, judge="Judge_C06", want=["js", "scope"],
         rule="TLC model-checks Visitor.tla (the traversal state machine: pending-declaration frames, slot counter, assignment "
-             "target, helper/import flags) over ALL module histories up to the bounds (items: JSX sites needing no temporary / a "
+             "target, helper/import flags) over ALL module histories up to the bounds, for enableObjectSlots on and off (items: JSX sites needing no temporary / a "
              "call temporary / the captured-identifier path, assignments, functions, default parameters, arrows, nested arrows, "
              "blocks, class fields) with ScopeOK, NoLeak, DeclsUsed, NoDuplicateDecl, HelperIffNeeded, CaptureOnlyOwn, "
              "CaptureWhenOwn as invariants; every terminal state is replayed on the real visitor and judged on free variables, "
              "binding identity through printing, generated-binding use, runtime errors and site values; the real hook trace is "
-             "validated against the model's predicted trace; non-trivial = the model predicts more than two scope events",
+             "validated against the model's predicted trace and the requested helper imports against the model's import set; non-trivial = the model predicts more than two scope events",
         exhaustive=dict(quick=True, thorough=True),
         assumptions=["initialisation order (TDZ) is observed by executing the output, not derived statically",
                      "a site that is never evaluated (body of an arrow nobody calls) is only checked statically"],
     ),
     "C10": dict(
         mc=[dict(module="MC_C10")], group_by=lambda cid: cid.split("#")[0], judge="Judge_C10", want=["js"],
-        rule="ordered (prefix, statement, suffix) triples: 9 statements whose lowering consults visitor state (Fragment tag, "
+        rule="ordered (prefix, statement, suffix) triples: 10 statements whose lowering consults visitor state (Fragment tag, "
              "fragment, call-child slot, captured-identifier slot, unbound-identifier slot, nested components, KeepAlive, v-model, "
-             "two temporaries) x distractor sequences over {assignment to the same-named variable, JSX-valued assignment, other JSX "
+             "two temporaries, a typed defineComponent call under resolveType) x distractor sequences over {assignment to the same-named variable, JSX-valued assignment, other JSX "
              "needing a temporary, fragment, <Fragment>, function/arrow/block bodies with and without JSX, arrow assigning the "
              "variable, user imports of Fragment/createVNode/h from 'vue'}; each triple is transformed and executed alone and "
              "composed; TLC compares the two recorded values and judges both against the denotation",
@@ -236,10 +268,13 @@ PROPS = {
     ),
     "C08": dict(
         mc=[dict(module="MC_C08T", heap="10g", actions=["Return", "Call", "Finish"]), dict(module="MC_C07"), dict(module="MC_C17"), dict(module="MC_C16"), dict(module="MC_C18"), dict(module="MC_C20", tiers=("thorough",))] + POOL, post=pool_post("C08", 4000, 60000), judge="Judge_C08", want=["det"], node=False, case_timeout=8.0,
+        proofs=["TypeResolveProofs"],
         rule="TLC model-checks TypeResolve.tla (the type-resolution stack machine with its depth bound) over every declaration graph "
              "on three names (2 197 graphs: literal / alias / intersection bodies) — liveness `Termination`, safety `ReportsCycles`, "
              "`DepthBounded`, `NoOverflow` — and every graph is replayed on the real resolveType (cycle reported iff reachable; the "
-             "real lookups are compared with the model's). Plus adversarial modules (every directive name x every JSX attribute-value kind on element and component, deep nesting, "
+             "real lookups are compared with the model's); the depth guard itself (`Len(stack) <= MaxDepth + 1` in every reachable "
+             "state, hence no overflow when MaxDepth + 1 <= StackLimit) is proved for EVERY name set, graph and MaxDepth by the TLA+ "
+             "proof system (spec/proofs/TypeResolveProofs.tla, re-checked from scratch on every run). Plus adversarial modules (every directive name x every JSX attribute-value kind on element and component, deep nesting, "
              "self- and mutually-referential aliases and interfaces through alias / extends / intersection / utility / indexed "
              "access / emits, empty runtime types, odd defineComponent call shapes, the unusual-forms grid and the type-expression "
              "pools of C16-C18) under the option sets, plus a sample of the pooled modules; each is run twice in one "
@@ -249,7 +284,7 @@ PROPS = {
                      "8 MB stack for the transform thread; deep nesting is bounded by the cfg (Depths)"],
     ),
     "C09": dict(
-        mc=[dict(module="MC_C07"), dict(module="MC_C20"), dict(module="MC_C16")] + POOL, post=c09_post, judge="Judge_C09", want=["frame", "idem"], node=False,
+        mc=[dict(module="MC_C07"), dict(module="MC_C20"), dict(module="MC_C16"), dict(module="MC_C18")] + POOL, post=c09_post, judge="Judge_C09", want=["frame", "idem"], node=False,
         rule="pooled generated modules (JSX embedded in assignments, functions, arrows, classes, blocks, default parameters; "
              "the unusual-forms grid) — for each: ordered embedding of the fingerprints of every maximal JSX-free input "
              "statement/expression into the fingerprints of the output, unchanged-ness of JSX-free modules against the same "
